@@ -139,7 +139,7 @@ func c02Sections(c *core.Ctx) {
 				for _, r := range *call.Referrers() {
 					switch x := r.(type) {
 					case *ssa.Phi:
-						used = x.Comment == "diff"
+						used = true // the appended list flows on as the (renamed or not) accumulator
 					case *ssa.Call:
 						used = used || core.CalleeName(&x.Call) == "builtin:len" || core.CalleeName(&x.Call) == "builtin:append"
 					}
@@ -209,7 +209,7 @@ func c02Masks(c *core.Ctx) {
 					}
 					v = fa.X
 				}
-				if al, ok := v.(*ssa.Alloc); ok && path != "" && strings.Contains(strings.ToLower(al.Comment), "copy") {
+				if al, ok := v.(*ssa.Alloc); ok && path != "" && (al == deepEqualCopy(fn) || strings.Contains(strings.ToLower(al.Comment), "copy")) {
 					got[path] = true
 				}
 			}
